@@ -22,7 +22,7 @@ ITEM_TIMEOUT = {"quick": 900, "thorough": 3600}
 MAXTASKS = 4
 ASSUMPTIONS = [
     "history carriers considered: disassembler.__i (pending prefix instruction) and the cpu module's internals dict; given both are restored, one decode call is a function of its bytes and mode (C05 covers that function)",
-    "twin: first call inputs are concrete witnesses (pool <= 14 per cpu) of every outcome class of the length<=2 exploration plus every prefix byte alone and doubled; second call symbolic",
+    "twin-prefixed: first call = a complete instruction carrying each prefix byte, second call = 2 symbolic bytes behind each prefix byte; twin: first call inputs are concrete witnesses (pool <= 14 per cpu) of every outcome class of the length<=2 exploration plus every prefix byte alone and doubled; second call symbolic",
     "register selectors realized under a cap of 2 values per site",
 ]
 
@@ -55,6 +55,8 @@ def items(tier, seed):
             specs = isa.spec_sets(mod)[si][1]
             has_pfx = any(s.pfx for s in specs)
             out.append(("short", cpu, mode, si, tier))
+            if has_pfx:
+                out.append(("twinpfx", cpu, mode, si, tier))
             n = len(specs)
             idx = list(range(n))
             rnd.shuffle(idx)
@@ -137,9 +139,23 @@ def replay(rep):
         if pend is not None or after != snap:
             return (True, "disassemble(%s) %s and leaves pending=%s internals_changed=%s" % (data.hex(), out, pend is not None, after != snap))
         return (False, "state clean after the call")
+    if not rep.get("_child"):
+        # the twin is replayed in a FRESH interpreter: state left behind by this process' own exploration must not count
+        import subprocess, sys as _sys, os as _os, json as _json
+        try:
+            pr = subprocess.run([_sys.executable, "-m", "vf.props.c11", "--replay-child"], input=_json.dumps(dict(rep, _child=True)), capture_output=True, text=True, timeout=300,
+                                cwd=_os.path.dirname(_os.path.dirname(_os.path.dirname(_os.path.abspath(__file__)))))
+            line = [l for l in pr.stdout.splitlines() if l.startswith("RESULT ")]
+            if line:
+                dd = _json.loads(line[-1][7:])
+                return (bool(dd[0]), dd[1])
+            return (False, "replay child failed: %s" % (pr.stderr.strip().splitlines()[-1:] or ["no output"])[0][:200])
+        except subprocess.TimeoutExpired:
+            return (False, "replay child timed out")
     b1 = bytes.fromhex(rep["b1"])
     b2 = bytes.fromhex(rep["b2"])
     fresh = decx.concrete_decode(cpu, mode, b2)
+    sf, shown_fresh = _csig(fresh), _show(fresh)  # read now: the object may share mutable state with later instructions
     with isa.mode_ctx(mod, mode):
         snap = dict(mod.internals) if isinstance(getattr(mod, "internals", None), dict) else None
         d._disassembler__i = None
@@ -157,9 +173,8 @@ def replay(rep):
             if snap is not None:
                 mod.internals.clear()
                 mod.internals.update(snap)
-    sf = _csig(fresh)
     sa = _csig(after)
-    return (sf != sa, "fresh d(%s) = %s ; after d(%s): %s" % (b2.hex(), _show(fresh), b1.hex(), _show(after)))
+    return (sf != sa, "fresh d(%s) = %s ; after d(%s): %s" % (b2.hex(), shown_fresh, b1.hex(), _show(after)))
 
 
 def _csig(i):
@@ -179,11 +194,18 @@ def _show(i):
         return "%s [%s]" % (i.mnemonic, bytes(i.bytes).hex())
 
 
-def twin_fn(mod, mode, n, spec, b1):
+def twin_fn(mod, mode, n, spec, b1, pfx2=b""):
     d = mod.disassemble
-    inner = decx.make_fn(mod, mode, n, spec)
+    inner = decx.make_fn(mod, mode, n, spec, prefix_bytes=pfx2)
 
     def fn(E):
+        # the reference decode comes FIRST: state that an earlier call leaves anywhere in the process (not only in the
+        # disassembler's pending instruction) must not be there yet
+        d._disassembler__i = None
+        r_fresh = inner(E)
+        # its signature is taken NOW: an instruction object sharing mutable state with later instructions
+        # (a list reused between calls) would otherwise be read after the history changed it
+        r_fresh["sig_now"] = sig_or_outcome(r_fresh)
         # history: one earlier call on a concrete input, its state is NOT cleaned
         with isa.mode_ctx(mod, mode):
             d._disassembler__i = None
@@ -196,7 +218,6 @@ def twin_fn(mod, mode, n, spec, b1):
         d._disassembler__i = hist
         r_after = inner(E)
         d._disassembler__i = None
-        r_fresh = inner(E)
         return (r_after, r_fresh)
 
     return fn
@@ -210,13 +231,13 @@ def sig_or_outcome(rec):
     return decx.signature(rec["ins"])
 
 
-def run_twin(cpu, mode, n, spec, pool, res, tier):
+def run_twin(cpu, mode, n, spec, pool, res, tier, pfx2=b""):
     mod = isa.load(cpu)
     from vf.termsmt import Prover
     for b1 in pool:
         E = symx.Engine(timeout_ms=20000, caps=dict(index=2, format=4, str=4, hash=6), max_decisions=6000)
         import time
-        paths = E.explore(twin_fn(mod, mode, n, spec, b1), max_paths=150 if tier == "quick" else 1500, deadline=time.time() + (8 if tier == "quick" else 120))
+        paths = E.explore(twin_fn(mod, mode, n, spec, b1, pfx2), max_paths=150 if tier == "quick" else 1500, deadline=time.time() + (8 if tier == "quick" else 120))
         res["explorations"] += 1
         if not E.complete:
             res["incomplete_explorations"] += 1
@@ -229,7 +250,7 @@ def run_twin(cpu, mode, n, spec, pool, res, tier):
             res["obligations"] += 1
             ra, rf = p.value
             sa, ta = sig_or_outcome(ra)
-            sf, tf = sig_or_outcome(rf)
+            sf, tf = rf.get("sig_now") or sig_or_outcome(rf)
             bad = None
             if sa != sf:
                 bad = "skeleton"
@@ -247,6 +268,7 @@ def run_twin(cpu, mode, n, spec, pool, res, tier):
             if b2 is None:
                 res["inconclusive"] += 1
                 continue
+            b2 = pfx2 + b2
             rep = {"kind": "twin", "cpu": cpu, "mode": mode, "b1": b1.hex(), "b2": b2.hex()}
             ok, detail = replay(rep)
             hook = spec.hook.__name__ if spec is not None and spec.hook is not None else "-"
@@ -298,6 +320,20 @@ def run_item(item):
                 r = recs[0]
                 res["samples"].append({"cpu": cpu, "mode": mode, "prefix_bytes": [x.hex() for x in pfx], "last_exploration_paths": len(recs), "a_path": {"outcome": r.outcome, "pending_is_None": r.pending is None, "pc": [str(z3.simplify(x))[:80] for x in r.pc[:3]]}})
             return res
+        if kind == "twinpfx":
+            # first call: a COMPLETE instruction carrying each kind of prefix; second call: symbolic bytes behind a prefix byte
+            _, cpu, mode, si, tier = item
+            mod = isa.load(cpu)
+            pfx = prefix_bytes(mod, si)
+            # (built without decoding anything: the first decode of the process must be the reference decode)
+            pool = [p + b"\xff\x00" for p in pfx] + [p + b"\x89\xd8" for p in pfx]
+            if tier == "quick":
+                pool = pool[:len(pfx)][:8]
+            res["pool"] = len(pool)
+            for p2 in (pfx[:3] + pfx[-1:] if tier == "quick" else pfx):
+                run_twin(cpu, mode, 2, None, pool, res, tier, pfx2=p2)
+            res["samples"].append({"cpu": cpu, "mode": mode, "twin_first_call_pool_of_complete_prefixed_instructions": [x.hex() for x in pool]})
+            return res
         _, cpu, mode, si, idx, tier = item
         mod = isa.load(cpu)
         specs = isa.spec_sets(mod)[si][1]
@@ -333,3 +369,14 @@ def coverage(agg, tier):
                    "outside": "histories longer than one earlier call in the twin (covered by the inductive argument), big-endian ARM fetch"},
         "exhaustive": False,
     }
+
+
+if __name__ == "__main__":
+    import sys as _sys, json as _json
+    if "--replay-child" in _sys.argv:
+        _rep = _json.loads(_sys.stdin.read())
+        try:
+            _out = replay(_rep)
+        except Exception as _ex:  # noqa
+            _out = (False, "replay child raised %s(%s)" % (type(_ex).__name__, str(_ex)[:100]))
+        print("RESULT " + _json.dumps([bool(_out[0]), _out[1]]))
